@@ -211,31 +211,60 @@ void * (*keep_aux)(void *) = myth_create_join_various_ex_aux;
 /* ------------------------------------------------------------------ harness: the universe, built constructively */
 myth_create_join_various_arg H_ARG;
 
+/* Two universes (one set of jobs each):
+     UNI == 1  strided: item numbers below 2^31, strides below 2^18 bytes -- chosen as ZERO-EXTENDED narrow values, so that
+               the upper bits of every multiplication operand are constants and CBMC builds 31x18-bit multipliers;
+     UNI == 0  degenerate: every stride 0, no results / ids array: n up to LONG_MAX/2. */
+#ifndef UNI
+#define UNI 1
+#endif
+static long pick_index(void) {
+#if UNI
+  return (long)(nondet_unsigned() >> 1);
+#else
+  long v = nondet_long(); __CPROVER_assume(0 <= v && v <= LONG_MAX / 2); return v;
+#endif
+}
 static size_t pick_stride(_Bool zero_ok, _Bool cells) {
-  size_t st = nondet_ulong();
-  __CPROVER_assume(SMALLS(st) && (zero_ok || st != 0) && (!cells || st % 8 == 0));
+#ifdef FIXSTRIDE
+  return cells ? 16 : 24;
+#elif UNI
+  unsigned r = nondet_unsigned();
+  size_t st = cells ? (size_t)((r >> 17) << 3) : (size_t)(r >> 14);
+  __CPROVER_assume(zero_ok || st != 0);
   return st;
+#else
+  return 0;
+#endif
 }
 /* bytes needed by an array whose items of w bytes lie st bytes apart (st: one of the stride ghosts, used when `given`),
    plus arbitrary slack.  A macro, so that every product is the same expression over the same ghosts: CBMC then
    builds ONE multiplier for it (two multipliers over equal-but-distinct inputs are a hard SAT problem) */
-#define NEED(given, st, w) (((given) && (st) != 0 && g_hb != 0) ? PROD(g_hb - 1, st) + (w) : (w))
+#define NEED(given, st, w) (((given) && (st) != 0 && g_hb != 0) ? SPROD(g_hb - 1, st) + (w) : (w))
 static long pick_slack(void) {
   long extra = nondet_long();
   __CPROVER_assume(0 <= extra && extra <= SLACK);
   return extra;
 }
+#ifdef NOPROD
+long nondet_long(void);
+#define SPROD(i, s) (nondet_long())
+#else
+#define SPROD(i, s) PROD(i, s)
+#endif
 static void setup(void) {
   /* strides: args / attrs any; funcs 0 (one shared function) or aligned cells; results / ids aligned cells */
-  _Bool with_ids = nondet_bool(), with_attrs = nondet_bool(), with_res = nondet_bool();
-  g_as = pick_stride(1, 0); g_fs = pick_stride(1, 1);
-  g_ts = with_attrs ? pick_stride(1, 0) : nondet_ulong();      /* the stride of an array that is not given is arbitrary */
-  g_rs = with_res ? pick_stride(0, 1) : nondet_ulong();
-  g_is = with_ids ? pick_stride(0, 1) : nondet_ulong();
+  _Bool with_attrs = nondet_bool();
+#if UNI
+  _Bool with_ids = nondet_bool(), with_res = nondet_bool();
+#else
+  _Bool with_ids = 0, with_res = 0;
+#endif
+  g_as = pick_stride(1, 0); g_fs = pick_stride(1, 1); g_ts = pick_stride(1, 0);
+  g_rs = pick_stride(!with_res, 1); g_is = pick_stride(!with_ids, 1);
   /* range of the call under proof and witness */
-  g_ha = nondet_long(); g_hb = nondet_long(); g_w = nondet_long();
-  __CPROVER_assume(0 <= g_w && 0 <= g_ha && g_ha <= g_hb && g_hb <= LONG_MAX / 2);
-  if (g_as != 0 || g_fs != 0 || (with_attrs && g_ts != 0) || with_res || with_ids) __CPROVER_assume(SMALLN(g_hb) && SMALLN(g_ha));
+  g_ha = pick_index(); g_hb = pick_index(); g_w = pick_index();
+  __CPROVER_assume(g_ha <= g_hb);
   /* user memory: five dynamic objects of symbolic size (malloc(n * sizeof(T)) gives an array of n cells of type T) */
   g_na = NEED(1, g_as, 1) + pick_slack(); g_nt = NEED(with_attrs, g_ts, 1) + pick_slack();
   g_nf = (NEED(1, g_fs, 8) + pick_slack()) / 8 + 1; g_nr = (NEED(with_res, g_rs, 8) + pick_slack()) / 8 + 1;
@@ -246,9 +275,9 @@ static void setup(void) {
   g_ids = with_ids ? (void *)IDS : 0; g_attrs = with_attrs ? (void *)ATTRS : 0; g_res = with_res ? (void *)RES : 0;
   /* witness item: its argument address and its cells */
   _Bool w_in = g_w < g_hb;
-  g_warg = w_in ? (void *)(ARGS + PROD(g_w, g_as)) : 0;
-  g_wrc = (w_in && with_res) ? PROD(g_w, g_rs) / 8 : 0;
-  g_wic = (w_in && with_ids) ? PROD(g_w, g_is) / 8 : 0;
+  g_warg = w_in ? (void *)(ARGS + SPROD(g_w, g_as)) : 0;
+  g_wrc = (w_in && with_res) ? SPROD(g_w, g_rs) / 8 : 0;
+  g_wic = (w_in && with_ids) ? SPROD(g_w, g_is) / 8 : 0;
   /* lemma instances: the witness lies below the last item */
   if (w_in) __CPROVER_assume(MONO(g_w, g_hb - 1, g_as) && MONO(g_w, g_hb - 1, g_rs) && MONO(g_w, g_hb - 1, g_is));
   /* cut: the witness cells lie inside the arrays (proved here once from the lemma instances, then used as a fact) */
@@ -257,14 +286,14 @@ static void setup(void) {
   /* guard cells: any cell of RES / IDS, written as (item number, offset within the stride) */
   g_gri = g_grd = g_gii = g_gid = 0; g_grc = nondet_long(); g_gic = nondet_long();
   if (with_res) {
-    g_gri = nondet_long(); g_grd = nondet_long();
-    __CPROVER_assume(0 <= g_gri && SMALLN(g_gri) && 0 <= g_grd && g_grd < (long)g_rs && g_grd % 8 == 0);
-    g_grc = (PROD(g_gri, g_rs) + g_grd) / 8;
+    g_gri = pick_index(); g_grd = (long)pick_stride(1, 1);
+    __CPROVER_assume(g_grd < (long)g_rs);
+    g_grc = (SPROD(g_gri, g_rs) + g_grd) / 8;
   }
   if (with_ids) {
-    g_gii = nondet_long(); g_gid = nondet_long();
-    __CPROVER_assume(0 <= g_gii && SMALLN(g_gii) && 0 <= g_gid && g_gid < (long)g_is && g_gid % 8 == 0);
-    g_gic = (PROD(g_gii, g_is) + g_gid) / 8;
+    g_gii = pick_index(); g_gid = (long)pick_stride(1, 1);
+    __CPROVER_assume(g_gid < (long)g_is);
+    g_gic = (SPROD(g_gii, g_is) + g_gid) / 8;
   }
   __CPROVER_assume(0 <= g_grc && g_grc < g_nr && 0 <= g_gic && g_gic < g_ni);
   /* what the user's functions return, who we are, counters */
@@ -282,9 +311,11 @@ void h_aux(void) {
   setup();
   __CPROVER_assume(g_ha < g_hb);
   /* lemma instances (distinct items have disjoint slots; the last item bounds every item) */
+#ifndef NOMONO
   __CPROVER_assume(MONO(g_ha, g_hb - 1, g_fs) && MONO(g_ha, g_hb - 1, g_rs) && MONO(g_ha, g_hb - 1, g_is));
   __CPROVER_assume(g_w < g_hb ==> (MONO(g_ha, g_w, g_as) && MONO(g_ha, g_w, g_rs) && MONO(g_ha, g_w, g_is)));
   __CPROVER_assume(MONO(g_ha, g_gri, g_rs) && MONO(g_ha, g_gii, g_is));
+#endif
   /* f_i is what the table holds (definition); instance for the one slot this call can read itself */
   __CPROVER_assume(FUNCSLOT(g_ha) == ((g_fs == 0 || g_ha == g_w) ? F_watch : F_other));
   H_ARG.ids = g_ids; H_ARG.attrs = g_attrs; H_ARG.funcs = (void *)FUNCS; H_ARG.args = (void *)ARGS; H_ARG.results = g_res;
